@@ -53,10 +53,9 @@ def run_unit(uid, tier, only=None):
         else:
             r = B.run_kani(uid, ud, spec, tier)
         allowed = mf.get("trusted_allow", [])
-        for t in r["trusted"]:
-            key = re.sub(r"@gen:\d+ ", "", t)
-            if key not in allowed:
-                raise Undecided(uid, "trusted construct not on the unit's allow-list: %r" % key)
+        missing = [re.sub(r"@gen:\d+ ", "", t) for t in r["trusted"] if re.sub(r"@gen:\d+ ", "", t) not in allowed]
+        if missing:
+            raise Undecided(uid, "trusted constructs not on the unit's allow-list: %s" % json.dumps(sorted(set(missing))))
         r["title"] = mf.get("title", "")
         results.append(r)
     return results
@@ -131,8 +130,8 @@ def check(pid, tier):
                     break
             if cex is None:
                 for r2, fl2 in violations:
-                    if r2["unit"] in twins and "input" in fl2 and r2["unit"] == r["unit"]:
-                        cex = {"from": r2["backend"] + " twin (same unit, other obligation)", "obligation": fl2["obligation"], "input": fl2["input"], "detail": fl2.get("detail", "")}
+                    if r2["unit"] in twins and "input" in fl2:
+                        cex = {"from": r2["backend"] + " twin (bounded check of the enclosing real function)", "obligation": fl2["obligation"], "input": fl2["input"], "detail": fl2.get("detail", "")}
                         break
         slug = re.sub(r"[^A-Za-z0-9]+", "_", fl["obligation"])[:80].strip("_")
         path = os.path.join(REPLAY_DIR, "%s-%s-%s-%s.json" % (pid, r["unit"], r["backend"], slug))
